@@ -122,6 +122,28 @@ Definition ops : list op := [
   ("ser.stream", fun a => match a with
      | [VI pid; VL its] => match opts item_of its with Some l => VB (packetise (zN pid) l) | None => vbad end
      | _ => vbad end);
+  (* ---- oracles computed from the Spec side only (no model function): what the property requires ---- *)
+  ("spec.parse", fun a => match a with
+     | [s] => match sec_of s with Some sc => VL [vok (vpmt (sec_result sc)); unchanged] | None => vbad end | _ => vbad end);
+  ("spec.read", fun a => match a with
+     | [s] => match sec_of s with Some sc => vok (vpmt (sec_result sc)) | None => vbad end | _ => vbad end);
+  ("spec.filter", fun a => match a with
+     | [VI p; s; VI pid; VL its; VL ws] =>
+       match sec_of s, opts item_of its, ns_of ws with
+       | Some sc, Some l, Some w =>
+         let r := match l, w with
+                  | [], _ => (None, None)
+                  | _, [] => (Some (ser_items (zN pid) true l), None)
+                  | _, _ =>
+                    let missing := missing_of (map epid (sstreams sc)) (zN pid) w in
+                    if N.eqb (len missing) (len w) then (None, Some missing)
+                    else (Some (spec_repack (hdrs_of (zN pid) true l)
+                                  (ser_unit {| pf := zN p; pre := []; sec := filtered_sec sc w; stuffing := 0 |})),
+                          match missing with [] => None | _ => Some missing end)
+                  end in
+         VL [vok (vfilter r); unchanged]
+       | _, _, _ => vbad end
+     | _ => vbad end);
   ("ser.pkts", fun a => match a with
      | [VI pid; VL its] => match opts item_of its with Some l => VL (map VB (ser_items (zN pid) true l)) | None => vbad end
      | _ => vbad end)
